@@ -10,7 +10,7 @@ ASSUMPTIONS = ["order is compared per port (the property's claim); the relative 
 RULE = ("event sequences over {valid broadcast of each family, foreign bytes, truncated, bit-flipped, unknown model, invalid UTF-8 name, "
         "out-of-range time field} on 1..4 ports (random free ports, and the library's own default ports when they are free), on a fresh bridge or one stopped and started again once or twice, with the user's callback raising on chosen invocations; every valid broadcast is "
         "tagged with its port and sequence number in the device name; thorough: every sequence of length <= 3 over the 8-letter "
-        "alphabet on 2 ports; broadcasts sent while start() is still opening ports; byte-identical datagrams repeated on the same and on other ports, sent one at a time; non-trivial = distinct sequences holding a valid broadcast after a bad datagram or a raising callback")
+        "alphabet on 2 ports; broadcasts sent while start() is still opening ports; a bridge (and the owner of its callback) that the application no longer references; byte-identical datagrams repeated on the same and on other ports, sent one at a time; non-trivial = distinct sequences holding a valid broadcast after a bad datagram or a raising callback")
 REQUIREMENT = ("per port, the callback log = the decoded devices of exactly the valid broadcasts sent to that port, in sending order "
                "(expected_bcast of Spec/Encoders.v for each), regardless of everything else and of raising callbacks")
 LETTERS = ["wh", "pp", "sh", "th", "foreign", "trunc", "flip", "unknown", "badname", "badtime"]
@@ -186,6 +186,53 @@ def run_during_start(out, rnd, trials):
                      nontrivial=lambda c: c["sent_while_starting"] > 0, sample=lambda c: c, classify=lambda c, i: "during-start/%d" % min(c["sent_while_starting"], 3))
 
 
+def run_unreferenced(out, rnd, trials):
+    """the application keeps no reference: the bridge is created and started inside a helper, its callback is a bound method of an
+    object nobody else holds, a garbage collection runs - and the broadcasts still arrive (the event loop owns the sockets)"""
+    import gc, socket
+    from aioswitcher.bridge import SwitcherBridge
+    async def one(use_method, collect):
+        ports = world.free_udp_ports(2); got = []; seen = set()
+        class Recorder:
+            def on_device(self, dev):
+                if dev.name.startswith("SENTINEL"): seen.add(dev.name)
+                else: got.append(c05.show(dev))
+        async def helper():
+            if use_method: b = SwitcherBridge(Recorder().on_device, list(ports))
+            else:
+                rec = Recorder(); b = SwitcherBridge(lambda dev: rec.on_device(dev), list(ports))
+            await b.start()
+        await helper()
+        if collect: gc.collect(); await asyncio.sleep(0); gc.collect()
+        tx = socket.socket(socket.AF_INET, socket.SOCK_DGRAM); ex = []
+        try:
+            for k in range(6):
+                p = k % 2; d, e = make_event(rnd, rnd.choice(list(FAMILY)), p, k + 1); ex.append((p, e)); tx.sendto(d, ("127.0.0.1", ports[p]))
+                await asyncio.sleep(0.001)
+            for p in range(2): tx.sendto(c06.sentinel(p), ("127.0.0.1", ports[p]))
+            for _ in range(2000):
+                if len(seen) == 2: break
+                await asyncio.sleep(0.001)
+        finally:
+            tx.close()
+            loop = asyncio.get_running_loop()          # nobody holds the bridge: its sockets are found through the loop
+            for t in list(getattr(loop, "_transports", {}).values()):
+                try:
+                    if t.get_extra_info("sockname")[1] in ports: t.close()
+                except Exception: pass
+            for _ in range(3): await asyncio.sleep(0)
+        return per_port_view(2, [(port_of(s_), s_) for s_ in got]), per_port_view(2, ex)
+    async def go():
+        res = []
+        for k in range(trials): res.append(await one(k % 2 == 0, k % 4 < 2))
+        return res
+    res = asyncio.run(go())
+    cases = [{"callback": "bound method of a temporary object" if k % 2 == 0 else "closure", "collected": k % 4 < 2} for k in range(trials)]
+    lib.differential(out, "bridge-and-callback-owner-referenced-by-nobody", cases, [i for i, _ in res], None, [e for _, e in res],
+                     lambda c: "bridge started in a helper and dropped; callback = %s; gc.collect() before the broadcasts: %s" % (c["callback"], c["collected"]),
+                     nontrivial=lambda c: True, sample=lambda c: c)
+
+
 def run(tier, rnd, out):
     corpus = lib.load_corpus("C07")
     if corpus: run_sequences(out, "corpus", corpus)
@@ -201,6 +248,7 @@ def run(tier, rnd, out):
     if world.well_known_ports(): run_sequences(out, "on-the-library's-default-ports", well_known_cases(rnd))
     else: out.notes.append("the library's default ports are not all free on this host: that stream was skipped")
     run_during_start(out, rnd, 6 if tier == "quick" else 60)
+    run_unreferenced(out, rnd, 8 if tier == "quick" else 40)
     run_repeats(out, "repeated-datagrams-one-at-a-time", [mk_repeats(rnd, rnd.randrange(1, 4), rnd.randrange(2, 12)) for _ in range(60 if tier == "quick" else 600)])
     out.exhaustive = tier == "thorough"
 
